@@ -13,6 +13,7 @@ import YalafiVerif.Proofs.Inv.Main
 import YalafiVerif.Generated.Tables
 import YalafiVerif.Model.Scanner
 import YalafiVerif.Properties.PlainDisplayStmt
+import YalafiVerif.Properties.PlainDispRowsStmt
 namespace Yalafi
 
 theorem C11_rot_length (l : List Str) : (rotL l).length = l.length := C10_rot_length l
